@@ -32,7 +32,8 @@ def gen_history(rng, i, nprocs, EC):
         nonlocal seq
         seq += 1
         path = "s:@OUT@/f%d.nc" % seq
-        l = sc.add("*", "create", f=slot, path=path, cmode=FMT_CMODE[rng.choice([1, 2, 5])], info="-")
+        # (with more than one rank, sometimes with intra-node aggregation: its per-file rank lists are library resources too)
+        l = sc.add("*", "create", f=slot, path=path, cmode=FMT_CMODE[rng.choice([1, 2, 5])], info=("nc_num_aggrs_per_node:1" if nprocs > 1 and rng.random() < 0.4 else "-"))
         nid = next_id()
         exp[l] = ((0, nid), "create must return the lowest free id %d" % nid)
         ids_in_use.add(nid)
@@ -241,7 +242,7 @@ class C17(Check):
         yield gen_maxfiles(0, EC)
         yield gen_fifo(0, EC, 1100 if tier == "quick" else 3000)
         for i in range(n):
-            yield gen_history(rng, i, rng.choice([1, 1, 2]), EC)
+            yield gen_history(rng, i, rng.choice([1, 1, 2, 3]), EC)
 
     def features(self, res):
         for f in res.case.meta["feat"]:
